@@ -11,6 +11,7 @@ three `execute_*_call` workers are reached only through `execute_call`.
 contract and is not built; this is the caller-side half, which is where the tree was wrong.)
 """
 from . import cg, prov, evalmarks as em
+from .facts import callee_name, AnchorMissing
 
 EVAL = em.EVAL
 STATE = em.STATE
@@ -111,3 +112,132 @@ def rule_default_env(F, rep, rid):
                               "parameter values that refer to the enclosing scope, `std`, `self` or `$` would find nothing there"
                               % (fn.q, sorted(map(str, org))), body.span(t["sp"]))
     rep.floor(R, n, 3, "argument-binding call sites")
+
+
+def rule_tables(F, rep, rid):
+    """callee side: the number of parameters a builtin is registered with equals the number of arguments its dispatcher arm
+    destructures (`check_num_args::<N>`), for every BuiltInFunc variant"""
+    import re
+    from . import cfg as _cfg
+    R = rep.rule(rid, "every builtin is registered with exactly as many parameters as its dispatcher arm takes apart: for each "
+                 "BuiltInFunc variant the length of the parameter list given to the registration in build_stdlib_extra equals the "
+                 "N of `check_num_args::<N>` in execute_built_in_call (a mismatch is a `try_into().unwrap()` panic on every call "
+                 "of that builtin with a well-formed argument list)")
+    BIF = "rsjsonnet_lang::program::data::BuiltInFunc"
+    variants = F.variants(BIF)
+    # --- registration side
+    reg = {}
+    b = F.fn("<rsjsonnet_lang::program::Program>::build_stdlib_extra")
+    bodies = [b] + list(F.closures_of(b))
+    for g in bodies:
+        body = g.body
+        defs = {}
+        for bb, si, st in body.assigns():
+            if not st["p"]["p"]:
+                defs.setdefault(st["p"]["l"], []).append(st["rv"])
+
+        def arr_len(op, depth=0):
+            """length N of the `[T; N]` a slice operand was unsized from"""
+            if op["k"] not in ("move", "copy") or depth > 6:
+                return None
+            ty = body.ty(op["t"]) if "t" in op else None
+            if ty is not None:
+                m = re.search(r"; (\d+)\]", ty["s"])
+                if m and ty["s"].startswith("&["):
+                    return int(m.group(1))
+            for rv in defs.get(op["l"], []):
+                if rv["k"] in ("cast", "use") and rv["x"]["k"] in ("move", "copy"):
+                    r = arr_len(rv["x"], depth + 1)
+                    if r is not None:
+                        return r
+                if rv["k"] == "ref":
+                    t2 = body.ty(rv["p"]["t"]) if "t" in rv["p"] else None
+                    if t2 is not None:
+                        m = re.search(r"; (\d+)\]", t2["s"])
+                        if m:
+                            return int(m.group(1))
+                    r = arr_len({"k": "copy", "l": rv["p"]["l"], "p": [], "t": body.locals[rv["p"]["l"]]["t"]}, depth + 1)
+                    if r is not None:
+                        return r
+            return None
+        for bb, si, st in body.assigns():
+            rv = st["rv"]
+            if rv["k"] == "agg" and rv["ak"] == "tuple":
+                var = None
+                n = None
+                for x in rv["xs"]:
+                    if x["k"] in ("move", "copy"):
+                        for d in defs.get(x["l"], []):
+                            if d["k"] == "agg" and d["ak"] == "adt" and d["adt"] == BIF:
+                                var = d["v"]
+                        ty = body.ty(x["t"])["s"] if "t" in x else ""
+                        if ty.startswith("&[") and "str" in ty:
+                            n = arr_len(x)
+                if var is not None:
+                    reg.setdefault(var, []).append((n, body.span(st["sp"])))
+    # --- dispatcher side
+    d = F.fn("<rsjsonnet_lang::program::eval::Evaluator>::execute_built_in_call")
+    body = d.body
+    succ = body.succ_map()
+    best = None
+    for i, blk in enumerate(body.blocks):
+        t = blk["t"]
+        if t["k"] == "switch" and (best is None or len(t["arms"]) > len(body.blocks[best]["t"]["arms"])):
+            best = i
+    if best is None or len(body.blocks[best]["t"]["arms"]) < len(variants) // 2:
+        raise AnchorMissing("execute_built_in_call: dispatch on BuiltInFunc")
+    arms = body.blocks[best]["t"]["arms"]
+    ent = {}
+    for v, tb in arms:
+        if 0 <= v < len(variants):
+            ent[variants[v]] = tb
+    disp = {}
+    for var, tb in ent.items():
+        seen = _cfg.reachable(succ, [tb], blocked_nodes=[best])
+        ns = set()
+        for bb in seen:
+            t = body.blocks[bb]["t"]
+            if t["k"] == "call" and (callee_name(t) or "").endswith("::check_num_args"):
+                for g_ in t["f"].get("ga", []):
+                    if isinstance(g_, str) and g_.startswith("const "):
+                        ns.add(int(g_.split()[1]))
+        if not ns:
+            # an arm that indexes the argument slice with constants instead: N = highest index + 1
+            hi = -1
+            for bb in seen:
+                for st in body.blocks[bb]["s"]:
+                    if st["k"] != "assign":
+                        continue
+                    rv = st["rv"]
+                    pls = [rv.get("p")] if rv["k"] in ("ref", "rawptr") else ([rv.get("x")] if rv["k"] == "use" else [])
+                    for pl in pls:
+                        if isinstance(pl, dict) and pl.get("l") is not None and pl.get("p"):
+                            for pr in pl["p"]:
+                                if pr != "*" and pr["k"] == "ci" and not pr.get("fe"):
+                                    hi = max(hi, pr["o"])
+                                if pr != "*" and pr["k"] == "i":
+                                    for b3 in seen:
+                                        for s3 in body.blocks[b3]["s"]:
+                                            if s3["k"] == "assign" and s3["p"]["l"] == pr["l"] and not s3["p"]["p"] and \
+                                                    s3["rv"]["k"] == "use" and s3["rv"]["x"]["k"] == "const" and isinstance(s3["rv"]["x"].get("v"), int):
+                                                hi = max(hi, s3["rv"]["x"]["v"])
+            if hi >= 0:
+                ns.add(hi + 1)
+        disp[var] = ns
+    n_rows = 0
+    for var in variants:
+        rs = reg.get(var, [])
+        ds = disp.get(var)
+        if not rs and ds is None:
+            continue
+        n_rows += 1
+        regn = {r[0] for r in rs}
+        ok = len(rs) >= 1 and None not in regn and ds is not None and len(ds) == 1 and regn == ds
+        rep.ob(R, "builtin|%s" % var, ok, {"builtin": var, "registered_params": sorted(map(str, regn)), "dispatcher_takes": sorted(ds or [])}
+               if var in ("Foldl", "Substr", "ExtVar") or not ok else None)
+        if not ok:
+            rep.violation(R, "BuiltInFunc::%s|arity" % var,
+                          "builtin %s is registered with %s parameter(s) but its dispatcher arm destructures %s argument(s)%s"
+                          % (var, sorted(map(str, regn)) or "no", sorted(ds) if ds else "no",
+                             "" if rs else " (never registered)"), (rs[0][1] if rs else d.loc))
+    rep.floor(R, n_rows, 100, "builtin variants")
